@@ -196,8 +196,8 @@ func runC19(c *core.Ctx, res *core.Result) {
 	}
 	for step := 0; step < n && len(res.Violations) == 0; step++ {
 		ctx, cancel := ctxT(60 * time.Second)
-		locked := rw != nil       // requests needing the write lock or a read lock would block
-		roHeld := len(ros) > 0    // requests needing the write lock would block
+		locked := rw != nil    // requests needing the write lock or a read lock would block
+		roHeld := len(ros) > 0 // requests needing the write lock would block
 		op := r.Pick(14, 8, 14, 6, 10, 10, 14, 2, 3, 5)
 		switch op {
 		case 0: // Put
